@@ -54,7 +54,7 @@ func init() {
 }
 
 func c05Generate(c *mon.Ctx) {
-	concBatches(c, c.N(6, 300), func(seed uint64) any { return &c05Case{Conc: seed} })
+	concBatches(c, c.NConc(6, 300), func(seed uint64) any { return &c05Case{Conc: seed} })
 
 	pool := gen.NewPool(c.SharedRng("pool"), 8)
 	sr := c.SharedRng("structured")
@@ -341,7 +341,7 @@ func c05Generate(c *mon.Ctx) {
 	})
 
 	// and again at the end of the shard, when the process has a history behind it
-	concBatches(c, c.N(4, 200), func(seed uint64) any { return &c05Case{Conc: seed + 50000} })
+	concBatches(c, c.NConc(4, 200), func(seed uint64) any { return &c05Case{Conc: seed + 50000} })
 }
 
 func c05Run(c *mon.Ctx, csAny any) {
